@@ -597,7 +597,10 @@ fn adapters_script(src: &mut Src, ctx: &mut Ctx) -> CaseResult {
     let mut real = FallibleIteratorReadWords::new(Script { items: items.clone(), at: 0 });
     let mut ended = false;
     for (i, it) in items.iter().chain(core::iter::repeat(&None).take(3)).enumerate() {
+        let me = if stack_sem { ReadWords::<W, Stack>::maybe_exhausted(&real) } else { ReadWords::<W, Queue>::maybe_exhausted(&real) };
         let r: Result<Option<W>, u8> = if stack_sem { ReadWords::<W, Stack>::read(&mut real) } else { ReadWords::<W, Queue>::read(&mut real) };
+        // "If maybe_exhausted() returns false then the next call to read must return either Ok(Some(_)) or Err(_)"
+        vcheck!(me || r != Ok(None), "C17/maybe_exhausted_false_but_no_data", "iterator adapter: maybe_exhausted() was false before read {}, which returned Ok(None)", i);
         let e: Result<Option<W>, u8> = if ended {
             Ok(None)
         } else {
